@@ -47,14 +47,17 @@ PROPS = {
                 quick=dict(runs=20000, wall=240, chunk=500), thorough=dict(runs=800000, wall=1500, chunk=4000),
                 assumptions=COMMON_ASSUME + ["continuous values compared with |a-b| <= 2e-5 + 2e-4|b|; view times within max(4 tol, 0.05 dt) of the grid but outside tol are not judged"]),
     "C08": dict(world="trainer_world", level="exploration",
-                quick=dict(runs=3000, wall=400, chunk=50), thorough=dict(runs=120000, wall=2400, chunk=500),
+                quick=dict(runs=8000, wall=400, chunk=100), thorough=dict(runs=300000, wall=2400, chunk=500),
                 assumptions=COMMON_ASSUME + ["tolerance 3e-5 + 3e-4 x (|pos| + |neg|); per-sample reward only with a sum batch reduction (the statement does not pin down other reductions)",
                                              "delays are integer multiples of dt for the pair rules (off-grid delays are counted undecided)"]),
     "C09": dict(world="trainer_world", level="exploration",
-                quick=dict(runs=3000, wall=400, chunk=50), thorough=dict(runs=120000, wall=2400, chunk=500),
+                quick=dict(runs=8000, wall=400, chunk=100), thorough=dict(runs=300000, wall=2400, chunk=500),
                 assumptions=COMMON_ASSUME + ["the signed rule is the float64 closed form of C08/C18; LinearHomeostasis' negative-valued depressive part is a recorded known finding"]),
+    "C17": dict(world="layer_world", level="exploration",
+                quick=dict(runs=4000, wall=400, chunk=100), thorough=dict(runs=150000, wall=2400, chunk=500),
+                assumptions=COMMON_ASSUME + ["layers run in eval mode so adaptive thresholds stay frozen and replay after clear() is comparable; the hand-wired twin is rebuilt by the same seeded factory"]),
     "C18": dict(world="trainer_world", level="exploration",
-                quick=dict(runs=3000, wall=400, chunk=50), thorough=dict(runs=120000, wall=2400, chunk=500),
+                quick=dict(runs=8000, wall=400, chunk=100), thorough=dict(runs=300000, wall=2400, chunk=500),
                 assumptions=COMMON_ASSUME + ["true last spike times are taken from the recorded history; learned delays are projected to [0, max] after every update"]),
     "C10": dict(world="updater_world", level="exploration",
                 quick=dict(runs=8000, wall=300, chunk=100), thorough=dict(runs=300000, wall=1800, chunk=1000),
